@@ -19,6 +19,7 @@ package main
 // The C20 oracle below is written against the property text and never consults the Lean model.
 
 import (
+	"math"
 	"bytes"
 	"fmt"
 	"sort"
@@ -1581,6 +1582,9 @@ func genRegistry(tier string, rng *RNG, emit func(Case)) {
 		p := base[rng.Intn(len(base))] + rng.Intn(40) - 20
 		if rng.Chance(5) {
 			p = -p
+		}
+		if rng.Chance(6) { // extreme values: a comparator written as a subtraction overflows here
+			p = []int{math.MinInt, math.MinInt + 1 + rng.Intn(40), math.MaxInt - rng.Intn(40), math.MaxInt, math.MinInt32, math.MaxInt32}[rng.Intn(6)]
 		}
 		return p
 	}
